@@ -14,14 +14,15 @@ import (
 // armSettingsAckCounter arms an obligation that fails on today's tree: the
 // pending SETTINGS acknowledgement is a bool, so two SETTINGS frames processed
 // while an asynchronous frame write is in flight are answered by one ACK (see
-// the report). Left disarmed until the orchestrator confirms the history with
-// a probe and lists the key in known_findings.txt.
+// the report; the source carries a TODO at processSettings acknowledging it).
+// Left disarmed until the orchestrator confirms the history with a probe and
+// lists the key in known_findings.txt.
 const armSettingsAckCounter = false
 
 func init() {
 	Register(&Property{
 		ID:    "C15",
-		Floor: 70,
+		Floor: 95,
 		Clauses: "stream.state is written only by newStream/endStream/wroteFrame/closeStream and stateClosed only by closeStream, which refuses idle/closed streams, removes the stream from sc.streams, settles the stream counters and tells the scheduler; " +
 			"received RST_STREAM on a live stream, a written RST_STREAM/handler-panic reset and a written END_STREAM on a half-closed-remote stream all reach closeStream, a written END_STREAM on an open stream sets half-closed-local; " +
 			"writeFrame does not hand a request to the scheduler when its stream is closed and the request is not a reset (flag provenance), startFrameWrite never reaches the wire for a closed stream nor, on a half-closed-local stream, for anything but RST_STREAM/panic-reset/WINDOW_UPDATE; " +
